@@ -150,6 +150,9 @@ def _check_join(plan, L, R, ctx):
     out = ctx.call(f"{op}_join", getattr(L, f"{op}_join"), R, *by)
     if not isinstance(out, di.DataFrame):
         raise Violation(f"{op}_join did not return a DataFrame")
+    out2 = ctx.call(f"{op}_join (second call)", getattr(L, f"{op}_join"), R, *by)
+    if build.snap_frame(out2) != build.snap_frame(out):
+        raise Violation(f"{op}_join: a second identical call gives a different result")
     ctx.cls("op_" + op, "left0" if nl == 0 else "leftN", "right0" if nr == 0 else "rightN")
     if any(x is None for x in match) and nl:
         ctx.cls("has_unmatched_left")
